@@ -244,18 +244,21 @@ impl Drop for Tok {
         #[cfg(not(kani))]
         if std::thread::panicking() && unsafe { REPLAY_QUIET_UNWIND } { return; }
         unsafe {
-            assert!((self.id as usize) < MAXID, "[C03,C04] destructor run on garbage (id out of range)");
-            assert!(DROPS[self.id as usize] == 0, "[C03,C04,C05] element destroyed twice (destructor run on a slot that no longer holds a live element)");
+            // soft clauses (each decided on its own; a failing one does not hide the clauses of the harness)
+            let id = self.id as usize;
+            check!(id < MAXID, "[C03,C04,C09,C10,C12] destructor run on garbage (id out of range): a slot that holds no live element was destroyed");
+            if id >= MAXID { return; }
+            check!(DROPS[id] == 0, "[C03,C04,C05,C09,C10,C12] element destroyed twice (destructor run on a slot that no longer holds a live element)");
             if W_N > 0 {
                 // destructor precondition (C05): the element being destroyed is outside the committed
                 // window of the watched buffer, and that window is valid and all-live, so that a panic
                 // raised by this destructor leaves a valid buffer and no second drop.
                 let rel = watched_rel(self as *const Tok);
-                assert!(rel == usize::MAX || rel >= *W_SIZE, "[C05] destructor runs on an element that is still inside the buffer's committed window");
-                assert!(watched_window_ok(), "[C05] buffer window is not a valid all-live sequence at destructor entry");
+                check!(rel == usize::MAX || rel >= *W_SIZE, "[C05] destructor runs on an element that is still inside the buffer's committed window");
+                check!(watched_window_ok(), "[C05] buffer window is not a valid all-live sequence at destructor entry");
             }
             DROP_ENTRIES += 1;
-            DROPS[self.id as usize] += 1;
+            if DROPS[id] < 200 { DROPS[id] += 1; }
             #[cfg(not(kani))]
             if PANIC_AT_DROP != 0 && DROP_ENTRIES == PANIC_AT_DROP { panic!("injected destructor panic"); }
         }
@@ -273,7 +276,7 @@ pub(crate) fn callback_entry() {
         return;
     }
     unsafe {
-        assert!(watched_window_ok(), "[C06] buffer window is not a valid all-live sequence at user-code entry");
+        check!(watched_window_ok(), "[C06] buffer window is not a valid all-live sequence at user-code entry");
         CALLBACKS += 1;
         #[cfg(not(kani))]
         if PANIC_AT_CALLBACK != 0 && CALLBACKS == PANIC_AT_CALLBACK { panic!("injected user-code panic"); }
@@ -283,7 +286,7 @@ pub(crate) fn callback_entry() {
 impl Clone for Tok {
     fn clone(&self) -> Tok {
         callback_entry();
-        assert!((self.id as usize) < MAXID && drops(self.id as usize) == 0, "[C03,C04] clone of a dead or garbage element");
+        check!((self.id as usize) < MAXID && drops(self.id as usize) == 0, "[C03,C04,C06,C12] clone of a dead or garbage element");
         let t = Tok::fresh();
         unsafe { PARENT[t.id as usize] = self.id; }
         #[cfg(not(kani))]
@@ -360,17 +363,23 @@ pub(crate) fn any_u8buf<const N: usize>() -> CircularBuffer<N, u8> {
 
 pub(crate) fn ids_of<const N: usize>(b: &CircularBuffer<N, Tok>) -> Seq {
     let mut s = Seq::new();
-    assert!(wf(b), "[C01,C03,C04] representation invariant broken (start/size out of range)");
+    // the representation invariant underlies every view-based property: a soft clause (decided on its own,
+    // not masking the clauses that follow), and the read below is clamped so that it stays inside the array
+    check!(wf(b), "[C01,C03,C04,C05,C06,C07,C08,C09,C10,C12] representation invariant broken (start/size out of range)");
+    let st = if N > 0 && b.start < N { b.start } else { 0 };
+    let sz = if b.size <= N { b.size } else { N };
     let mut i = 0;
-    while i < b.size { s.push(unsafe { (*b.items[phys(b.start, i, N)].as_ptr()).id }); i += 1; }
+    while i < sz { s.push(unsafe { (*b.items[phys(st, i, N)].as_ptr()).id }); i += 1; }
     s
 }
 
 pub(crate) fn bytes_of<const N: usize>(b: &CircularBuffer<N, u8>) -> Seq {
     let mut s = Seq::new();
-    assert!(wf(b), "[C01,C14] representation invariant broken (start/size out of range)");
+    check!(wf(b), "[C01,C13,C14,C16] representation invariant broken (start/size out of range)");
+    let st = if N > 0 && b.start < N { b.start } else { 0 };
+    let sz = if b.size <= N { b.size } else { N };
     let mut i = 0;
-    while i < b.size { s.push(unsafe { *b.items[phys(b.start, i, N)].as_ptr() }); i += 1; }
+    while i < sz { s.push(unsafe { *b.items[phys(st, i, N)].as_ptr() }); i += 1; }
     s
 }
 
